@@ -684,6 +684,30 @@ class Item:
         self._log('R20', 'char_indices().peekable() loop -> counted loop with running byte offset (%d peeks rewritten)' % k)
         return self
 
+    def r16_rev_pairs(self, fn_name, ordinal, suffix=None):
+        """`for (a, b) in V.iter_mut().rev() { B }` -> counted `while` from V.len() down to 1 with `a` / `b` written as the places
+        V[k].0 / V[k].1 (`&mut V[k].1` where b is passed as an argument).  Sound for the same reason as R16."""
+        self._no_splice_yet()
+        b, o, e = self._loop_span(fn_name, ordinal)
+        hdr = self.text[b:o]
+        m = re.match(r'(\s*)for \((\w+), (\w+)\) in ([\w\.]+)\.iter_mut\(\)\.rev\(\)\s*$', hdr, re.S)
+        if not m:
+            raise ExtractError('%s: R16 loop #%d is not `for (a, b) in V.iter_mut().rev()`: %s' % (self.name, ordinal, hdr.strip()))
+        ind, a, bb, v = m.groups()
+        sfx = suffix if suffix is not None else str(ordinal)
+        n, k = '__n' + sfx, '__k' + sfx
+        body = self.text[o + 1:e - 1]
+        for name, fld in ((a, '0'), (bb, '1')):
+            place = '%s[%s].%s' % (v, k, fld)
+            body = re.sub(r'\b%s\b(?=\.)' % re.escape(name), place, body)                      # receiver / field base
+            body = re.sub(r'(matches!\(\s*)%s\b' % re.escape(name), r'\1' + place, body)       # scrutinee of matches!
+            body = re.sub(r'(?<![\w\.\]])%s\b(?!\s*[\.\[:(])' % re.escape(name), '&mut ' + place, body)   # passed on as an argument
+        new_hdr = '%slet mut %s: usize = %s.len();\n%swhile %s > 0 ' % (ind, n, v, ind, n)
+        body_ins = '\n%s    %s -= 1;\n%s    let %s = %s;' % (ind, n, ind, k, n)
+        self.text = self.text[:b] + new_hdr + '{' + body_ins + body + self.text[e - 1:]
+        self._log('R16', 'reverse for-in-iter_mut loop #%d in %s -> counted while over %s (elements written as places %s[%s].0/.1)' % (ordinal, fn_name, v, v, k))
+        return self
+
     def r17_cow(self):
         """`Cow<'_, str>` erased to its owned form: the type becomes String, Cow::Owned(e) -> e, Cow::Borrowed(e) / e.into() ->
         e.vx_owned() (a stub returning a String with the same characters).  Borrowing vs owning is not observable in the value."""
